@@ -66,10 +66,13 @@ func f32(v ref.V3) ciexyz.Color {
 }
 func f64(c ciexyz.Color) ref.V3 { return ref.V3{float64(c.X), float64(c.Y), float64(c.Z)} }
 
-// valid: Bradford cone responses all >= 0.1 (Y = 1)
+// valid: every Bradford cone response is at least 0.02*Y away from zero (either sign: the sharpened Bradford
+// space gives slightly negative responses for saturated but physically realisable whites, and the adaptation
+// is well defined for them; only a response of ~0 makes the ratio meaningless).  Tolerances scale with the
+// conditioning factor, so the previously excluded corner of the [0.2,0.5]^2 square is now covered.
 func valid(w XY) bool {
 	c := ref.BradfordFwd.MulV(xyzExact(w))
-	return c[0] >= 0.1 && c[1] >= 0.1 && c[2] >= 0.1
+	return math.Abs(c[0]) >= 0.02 && math.Abs(c[1]) >= 0.02 && math.Abs(c[2]) >= 0.02
 }
 
 // conditioning factor of the cone response for white v
@@ -273,9 +276,13 @@ func TestC12(t *testing.T) {
 		fmt.Println("REPLAY case passed:", c)
 		return
 	}
-	ev.Rule("white points (chromaticity x luminance Y; Y = 1 and, for a fifth of the grid and half of the rapid cases, Y in [0.2,2], including pairs of equal chromaticity and different luminance): the 11 CIE standard illuminants (all ordered pairs and triples), daylight/Planckian locus points for generated CCT in [2000,25000] K with a small offset, and a chromaticity grid over [0.2,0.5]^2 (16x16 sub-grid squared in quick, 64x64 squared in thorough) restricted to whites whose three Bradford cone responses are >= 0.1*Y; colours: rapid float32 XYZ in [-0.5,2]^3. non-trivial = distinct case with A != B (and three distinct whites for the composition law)")
-	ev.Assume("internal/ref Bradford matrix transcribed from the literature; whites with a cone response < 0.1*Y are not physically valid and excluded (count reported)")
-	names := []string{"A", "B", "C", "D50", "D55", "D65", "D75", "E", "F2", "F7", "F11"}
+	ev.Rule("white points (chromaticity x luminance Y; Y = 1 and, for a fifth of the grid and half of the rapid cases, Y in [0.2,2], including pairs of equal chromaticity and different luminance): the 11 CIE standard illuminants (all ordered pairs and triples), daylight/Planckian locus points for generated CCT in [2000,25000] K with a small offset, and a chromaticity grid over [0.2,0.5]^2 (16x16 sub-grid squared in quick, 64x64 squared in thorough) restricted to whites whose three Bradford cone responses are at least 0.02*Y away from zero (negative responses of saturated whites included); colours: rapid float32 XYZ in [-0.5,2]^3. non-trivial = distinct case with A != B (and three distinct whites for the composition law)")
+	ev.Assume("internal/ref Bradford matrix transcribed from the literature; whites with a cone response within 0.02*Y of zero are excluded because the adaptation ratio is then meaningless (count reported)")
+	table["LPS"] = XY{0.5692, 0.43}    // low-pressure sodium
+	table["YG"] = XY{0.45, 0.54}       // saturated yellow-green
+	table["DeepRed"] = XY{0.71, 0.285} // near the red end of the locus
+	table["Pink"] = XY{0.5, 0.2}       // corner of the stated region
+	names := []string{"A", "B", "C", "D50", "D55", "D65", "D75", "E", "F2", "F7", "F11", "LPS", "YG", "DeepRed", "Pink"}
 	bad := false
 	run := func(c Case, tag string) {
 		ev.Eval(1)
